@@ -1,10 +1,14 @@
 (* SafeObjStm.v -- C04 layer over ObjectStream::new (src/object_stream.rs); what the members ARE is c02's Model/ObjStm.v.
    Sites: `first_offset + chunk[1]? as usize` (usize + u32), `numbers[..len]` with len = numbers.len() / 2 * 2,
    `chunk[0]`, `chunk[1]` on chunks(2) of an even-length slice, `&stream.content[offset..]` behind `offset >= len`,
-   `n.checked_mul(2)` (checked).  Cost: every pair of the index whose offset lies inside the content starts a
-   parser::direct_object run over the REST of the content, and keeps what it parsed: the work and the memory of one
-   object stream are the sum of those rests.  Definitions only. *)
-From LV Require Import Base.Bytes Model.Safe.
+   `n.checked_mul(2)` (checked), `len - rest.len()` in parser::direct_object_len (rest is a suffix of the input),
+   `spent.fetch_add(..)` (an atomic: wraps, cannot panic), `content.len().saturating_mul(MAX_MEMBER_OVERLAP)`.
+   Cost: every pair of the index whose offset lies inside the content starts a parser::direct_object run over the REST of
+   the content and keeps what it parsed.  Since the repair of C04-objstm-shared-offsets each run is charged -- the bytes its
+   object spans, or the whole rest when no object starts there: what the parser can have read and what is kept of it --
+   and no run is started once the charges exceed MAX_MEMBER_OVERLAP * |content|: the work and the memory of one object
+   stream are linear in its content.  Before, they were the sum of the rests (pairs * |content|).  Definitions only. *)
+From LV Require Import Base.Bytes Model.Safe Gen.ObjStmC.
 Local Open Scope N_scope.
 
 (* offset of one member: first_offset is at most content.len() (content.get(..first_offset) succeeded), the second
@@ -20,17 +24,22 @@ Definition sobjstm_even (numbers : N) : M N :=
 Definition member_rest (len first off : N) : N :=
   let o := first + off in if len <=? o then 0 else len - o.
 
-(* one ObjectStream::new: the offsets of the index pairs (those whose two numbers parsed) *)
-Definition sobjstm_step (len first : N) (acc : M N) (off : N) : M N :=
-  a <- acc ;; o <- sobjstm_offset first off ;;
-  let r := member_rest len first off in
-  request r ;;; tick r ;;; ret (a + r).
-Definition sobjstm_work (len first : N) (offs : list N) : M N := fold_left (sobjstm_step len first) offs (ret 0).
+(* a pair as the cost sees it: (offset number, what parser::direct_object_len answers there: the span of the object, or
+   anything at all when there is none -- the closure then charges the rest).  Whatever the parser does, the charge is at
+   most the rest: N.min *)
+Definition member_charge (len first : N) (ou : N * N) : N := N.min (snd ou) (member_rest len first (fst ou)).
 
-(* known finding C04-objstm-shared-offsets: an index in which the offsets do not increase (members share bytes) *)
-Fixpoint increasing_from (lo : option N) (offs : list N) : bool :=
-  match offs with
-  | [] => true
-  | o :: t => match lo with Some l => (l <? o) | None => true end && increasing_from (Some o) t
-  end.
-Definition KnownSharedOffsets (offs : list N) : bool := negb (increasing_from None offs).
+(* content.len().saturating_mul(MAX_MEMBER_OVERLAP) *)
+Definition sobjstm_limit (len : N) : N := N.min (len * MAX_MEMBER_OVERLAP) USIZE_MAX.
+
+(* one pair of the index (both numbers parsed); the state is `spent` *)
+Definition sobjstm_step (len first : N) (acc : M N) (ou : N * N) : M N :=
+  spent <- acc ;; o <- sobjstm_offset first (fst ou) ;;
+  if len <=? o then ret spent                                  (* "out-of-bounds offset" *)
+  else if sobjstm_limit len <? spent then ret spent            (* over the limit: no parser run *)
+  else let u := member_charge len first ou in
+       request u ;;; tick u ;;; ret (spent + u).
+Definition sobjstm_work (len first : N) (ous : list (N * N)) : M N := fold_left (sobjstm_step len first) ous (ret 0).
+
+(* the code before the repair (every pair runs): the sum of the rests *)
+Definition total_rest (len first : N) (offs : list N) : N := fold_left (fun a off => a + member_rest len first off) offs 0.
